@@ -51,9 +51,11 @@ Section Bridge.
      division structure is identical *)
   Lemma B_quat_fromAxisAngle a ang : G_quat_fromAxisAngle O a ang = qfromAxisAngle O a ang.
   Proof. l1_split; try reflexivity; try ring. Qed.
-  Lemma B_quat_fromMatrix m : G_quat_fromMatrix O m = qfromMatrix_hdr O m.
+  Lemma B_quat_fromMatrix m : G_quat_fromMatrix O m = qfromMatrix O m.
   Proof.
-    l1_split; try reflexivity; try ring;
+    destruct m. unfold G_quat_fromMatrix, qfromMatrix, qfromMatrix_hdr. cbv_sc.
+    repeat match goal with |- context [if ?b then _ else _] => destruct b end;
+    ext_rec; cbv_sc; try reflexivity; try ring;
     repeat match goal with |- odiv O ?a ?b = odiv O ?c ?d =>
       replace a with c by ring; replace b with d by ring; reflexivity end.
   Qed.
